@@ -9,7 +9,7 @@ KERNELS = ['G14_cache', 'G11_codegen']
 PROP_FILE = 'Properties/C15.v'
 ASSUMPTIONS = ["partial: sha1 collision freedom; the interpreter's rule for using a bytecode file (equal source stamp); atomicity of os.replace; "
                "sys.modules reload semantics are not in the model (covered only by the implementation runs of this check)"]
-VARS = ['A', 'A4', 'B', 'C', 'Anv', 'Anp', 'Aoff', 'Ana', 'Ale', 'Anale', 'Dal', 'Dfx']
+VARS = ['A', 'A4', 'B', 'C', 'Anv', 'Anp', 'Aoff', 'Ana', 'Ale', 'Anale', 'Dal', 'Dfx', 'Cnp', 'Anu', 'Cnu']
 VID = {v: i for i, v in enumerate(VARS)}
 
 HEADER_COQ = """From Coq Require Import ZArith List Bool.
@@ -47,7 +47,7 @@ def run_history(args):
 
 def run(tier, seed, rng):
     hists = []
-    base = ['A', 'A4', 'C', 'Anv', 'Aoff', 'Ale', 'Ana', 'Anale', 'Dal', 'Dfx']
+    base = ['A', 'A4', 'C', 'Anv', 'Aoff', 'Ale', 'Ana', 'Anale', 'Dal', 'Dfx', 'Anp', 'Cnp', 'Anu', 'Cnu']
     # exhaustive: every sequence of two definitions, in one process and across two processes, bytecode on/off
     for a, b in itertools.product(base, repeat=2):
         for bc in (False, True):
